@@ -485,6 +485,8 @@ func indexOfCol(t *atTable, name string) int {
 
 type atGroup struct {
 	Explicit bool     `json:"explicit_tx"`
+	Pinned   bool     `json:"pinned_conn,omitempty"`   // run the statements on one pinned *sql.Conn
+	KeepGoing bool    `json:"keep_going,omitempty"`    // a failed statement does not end the business function (retry-style code)
 	Stmts    []atStmt `json:"stmts"`
 }
 
@@ -529,6 +531,9 @@ func describeTable(t *atTable) string {
 func (c *atCase) steps(dbName string) []gtxStep {
 	var out []gtxStep
 	for _, g := range c.Groups {
+		if g.Pinned {
+			out = append(out, gtxStep{Op: "conn_pin", DB: dbName, StopOnErr: true})
+		}
 		if g.Explicit {
 			out = append(out, gtxStep{Op: "begin", DB: dbName, StopOnErr: true})
 		}
@@ -539,10 +544,13 @@ func (c *atCase) steps(dbName string) []gtxStep {
 			}
 			// like application code: a failed statement ends the business function with that error (an open local
 			// transaction is rolled back by the interpreter's cleanup)
-			out = append(out, gtxStep{Op: op, DB: dbName, SQL: s.SQL, Args: s.Args, StopOnErr: true})
+			out = append(out, gtxStep{Op: op, DB: dbName, SQL: s.SQL, Args: s.Args, StopOnErr: !g.KeepGoing})
 		}
 		if g.Explicit {
 			out = append(out, gtxStep{Op: "commit", StopOnErr: true})
+		}
+		if g.Pinned {
+			out = append(out, gtxStep{Op: "conn_release"})
 		}
 	}
 	return out
